@@ -707,6 +707,44 @@ def gen_stroker_fields(repo, outdir, results):
     write_if_changed(os.path.join(outdir, "StrokerFields.v"), txt)
 
 
+def gen_gradient_stage(repo, outdir, results):
+    """the comparison operator each lane of the `gradient` stage uses to count the stops at or below t"""
+    txt = HEADER % "src/pipeline/lowp.rs, src/pipeline/highp.rs (fn gradient)"
+    txt += "From Coq Require Import List String.\nImport ListNotations.\nLocal Open Scope string_scope.\n\n"
+    ok, msg = True, ""
+    for name, rel in (("lowp", "src/pipeline/lowp.rs"), ("highp", "src/pipeline/highp.rs")):
+        try:
+            src = open(os.path.join(repo, rel)).read()
+            m = re.search(r"\nfn gradient\(p: &mut Pipeline\) \{", src)
+            if not m:
+                raise ParseError("fn gradient not found in %s" % rel)
+            i = m.end() - 1
+            depth, j = 0, i
+            while j < len(src):
+                if src[j] == "{":
+                    depth += 1
+                elif src[j] == "}":
+                    depth -= 1
+                    if depth == 0:
+                        break
+                j += 1
+            body = re.sub(r"//[^\n]*", "", src[i:j + 1])
+            loop = re.search(r"for i in 1\.\.ctx\.len \{(.*?)\n    \}", body, re.S)
+            if not loop:
+                raise ParseError("the stop loop `for i in 1..ctx.len` was not found in %s" % rel)
+            ops = re.findall(r"\(\s*t\d?\[\s*\d+\s*\]\s*(>=|<=|>|<|==)\s*tt\s*\)", loop.group(1))
+            other = re.findall(r"\.cmp_(\w+)\(", loop.group(1))
+            ops += ["cmp_" + o for o in other]
+            txt += "Definition %s_gradient_cmps : list string := [%s].\n" % (name, "; ".join('"%s"' % o for o in ops))
+            msg += "%s: %d lanes " % (name, len(ops))
+        except Exception as ex:
+            ok = False
+            msg += "%s: %s " % (name, ex)
+            txt += "Definition %s_gradient_cmps : list string := [].  (* NOT TRANSLATED: %s *)\n" % (name, str(ex).replace("*)", "* )"))
+    results.append(("gradient-stage", ok, msg))
+    write_if_changed(os.path.join(outdir, "GradientStage.v"), txt)
+
+
 def run(repo, outdir):
     results = []
     os.makedirs(outdir, exist_ok=True)
@@ -715,6 +753,7 @@ def run(repo, outdir):
     gen_blend_table(repo, outdir, results)
     gen_noglobals(repo, outdir, results)
     gen_stroker_fields(repo, outdir, results)
+    gen_gradient_stage(repo, outdir, results)
     from translate_fixed import gen_fixed
     gen_fixed(repo, outdir, results)
     return results
